@@ -28,6 +28,68 @@ pub const FLOAT_POOL: [f32; 16] = [
 pub const MID_POOL: [i32; 22] = [15, 16, 17, 31, 32, 33, 63, 64, 65, 255, 256, 257, 1000, 1023, 1024, 1025, 1050, 1099, 1100, 65535, 65536, 16777217];
 pub const NAME_POOL: [&str; 12] = ["a", "b", "c", "x1", "foo", "Bar-2", "A", "FOO", "bar-2", "Foo", "f(x)", "x)"];
 
+/// Literals harvested from pushr's own (non-test) source by ./check (lib/literals.py, file named by
+/// PVMON_LITERALS): a behaviour that depends on one specific value has that value in the source, so
+/// the pools below contain it, its neighbours and its negation. Empty when the variable is not set.
+pub struct Lits {
+    pub ints: Vec<i32>,
+    pub floats: Vec<f32>,
+    pub names: Vec<String>,
+}
+pub fn lits() -> &'static Lits {
+    static L: std::sync::OnceLock<Lits> = std::sync::OnceLock::new();
+    L.get_or_init(|| {
+        let mut l = Lits { ints: vec![], floats: vec![], names: vec![] };
+        if let Ok(p) = std::env::var("PVMON_LITERALS") {
+            if let Ok(text) = std::fs::read_to_string(&p) {
+                for line in text.lines() {
+                    let (k, v) = match line.split_once(' ') {
+                        Some(x) => x,
+                        None => continue,
+                    };
+                    match k {
+                        "i" => {
+                            if let Ok(x) = v.parse::<i64>() {
+                                for y in [x, x - 1, x + 1, -x] {
+                                    if y >= i32::MIN as i64 && y <= i32::MAX as i64 {
+                                        l.ints.push(y as i32);
+                                    }
+                                }
+                                // literals are also thresholds of f32 comparisons
+                                l.floats.push(x as f32);
+                            }
+                        }
+                        "f" => {
+                            if let Ok(x) = v.parse::<f64>() {
+                                let f = x as f32;
+                                l.floats.extend([f, -f, f32::from_bits(f.to_bits().wrapping_add(1)), f32::from_bits(f.to_bits().wrapping_sub(1))]);
+                                if f.fract() == 0.0 && f.abs() < 2.0e9 {
+                                    l.ints.push(f as i32);
+                                }
+                            }
+                        }
+                        "s" => {
+                            let ok = !v.is_empty() && v.len() <= 31 && v.chars().enumerate().all(|(i, c)| c == '_' || c.is_ascii_alphabetic() || (i > 0 && c.is_ascii_digit()));
+                            if ok && v != "TRUE" && v != "FALSE" {
+                                l.names.push(v.to_string());
+                            }
+                        }
+                        _ => {}
+                    }
+                }
+            }
+        }
+        l.ints.sort();
+        l.ints.dedup();
+        l.floats.retain(|f| !f.is_nan());
+        l.floats.sort_by(|a, b| a.total_cmp(b));
+        l.floats.dedup_by(|a, b| a.to_bits() == b.to_bits());
+        l.names.sort();
+        l.names.dedup();
+        l
+    })
+}
+
 #[derive(Clone, Copy, Debug, PartialEq)]
 pub enum Vals {
     /// values from the boundary pools only
@@ -42,7 +104,7 @@ pub fn int(r: &mut Rng, m: Vals) -> i32 {
     match m {
         Vals::Boundary => *r.pick(&INT_POOL),
         Vals::Small => r.range(-12, 12) as i32,
-        Vals::Mixed => match r.below(12) {
+        Vals::Mixed => match r.below(13) {
             0..=3 => *r.pick(&INT_POOL),
             4..=7 => r.range(-12, 12) as i32,
             8 => {
@@ -50,6 +112,7 @@ pub fn int(r: &mut Rng, m: Vals) -> i32 {
                 if r.bool() { v } else { -v }
             }
             9 => r.range(-1200, 1200) as i32,
+            10 if !lits().ints.is_empty() => *r.pick(&lits().ints),
             _ => r.next_u64() as i32,
         },
     }
@@ -64,9 +127,10 @@ pub fn float(r: &mut Rng, m: Vals) -> f32 {
     match m {
         Vals::Boundary => *r.pick(&FLOAT_POOL),
         Vals::Small => grid_float(r),
-        Vals::Mixed => match r.below(10) {
+        Vals::Mixed => match r.below(11) {
             0..=3 => *r.pick(&FLOAT_POOL),
             4..=7 => grid_float(r),
+            8 if !lits().floats.is_empty() => *r.pick(&lits().floats),
             _ => {
                 let f = f32::from_bits(r.next_u64() as u32);
                 f
@@ -77,6 +141,7 @@ pub fn float(r: &mut Rng, m: Vals) -> f32 {
 
 pub fn name(r: &mut Rng) -> String {
     match r.below(60) {
+        2 if !lits().names.is_empty() => r.pick(&lits().names).to_string(),
         0 => r.pick(&["é", "名前", "a\u{301}b", "naïve-€"]).to_string(),
         1 => {
             // long names around byte-length boundaries, with multi-byte characters in them
